@@ -211,7 +211,7 @@ pub open spec fn stbl_of(t: Mp4Track) -> StblBox { t.trak.mdia.minf.stbl }
 
 /// what Mp4Reader::read_header establishes for every track it hands out (parser guarantees only)
 pub open spec fn track_parsed(t: Mp4Track) -> bool {
-    &&& stbl_parsed(stbl_of(t))
+    &&& stbl_parsed(stbl_of(t)) && tkhd_rd_wire(t.trak.tkhd)
     &&& t.trafs@.len() == t.moof_offsets@.len()
     &&& trafs_parsed(t.trafs@)
 }
@@ -362,7 +362,8 @@ pub open spec fn reader_frag_count_ok<R>(m: Mp4Reader<R>) -> bool {
     forall|id: u32| #[trigger] m.tracks@.contains_key(id) ==> frag_count_ok(m.tracks@[id])
 }
 
-pub open spec fn trak_parsed(t: TrakBox) -> bool { stbl_parsed(t.mdia.minf.stbl) }
+pub open spec fn trak_parsed(t: TrakBox) -> bool { stbl_parsed(t.mdia.minf.stbl) && tkhd_rd_wire(t.tkhd) }
+pub open spec fn opt_tkhd_ok(o: Option<TkhdBox>) -> bool { o matches Some(x) ==> tkhd_rd_wire(x) }
 
 pub open spec fn moov_parsed(m: MoovBox) -> bool {
     forall|i: int| 0 <= i < m.traks@.len() ==> trak_parsed(#[trigger] m.traks@[i])
